@@ -552,4 +552,18 @@ def do_replay(ctx, engine, path):
 
 
 if __name__ == '__main__':
+    # every temporary file of the run (the harness's own and those the code under test leaves behind when a child is
+    # killed on purpose) goes below one scratch directory, which is removed when the check ends
+    import atexit
+    import shutil
+    import tempfile
+    _scratch = tempfile.mkdtemp(prefix='wpull-verif-run-')
+    os.environ['TMPDIR'] = _scratch
+    tempfile.tempdir = _scratch
+    _main_pid = os.getpid()
+
+    def _clean():
+        if os.getpid() == _main_pid:
+            shutil.rmtree(_scratch, ignore_errors=True)
+    atexit.register(_clean)
     sys.exit(main(sys.argv))
